@@ -469,16 +469,16 @@ with children_r (fuel : nat) (pos endPos : N) (acc : list tree) (s : ist) {struc
   match fuel with
   | O => (OutOfFuel, s)
   | S f =>
-      match dec_box_r f pos (icharge (tick 1) s) with
-      | (Ok BEof, s1) => (Ok (rev acc), s1)          (* err == io.EOF: return children, nil *)
-      | (Ok (BBox child), s1) =>
-          let s2 := icharge (allocn 1) s1 in
-          let pos' := addu64 pos (tsize child) in
-          if (pos' =? endPos)%N then (Ok (rev (child :: acc)), s2)
-          else if (endPos <? pos')%N then (Err, s2)
-          else children_r f pos' endPos (child :: acc) s2
-      | (Err, s1) => (Err, s1) | (Panic, s1) => (Panic, s1) | (OutOfFuel, s1) => (OutOfFuel, s1)
-      end
+      (* 9d05608: position compared with the container end BEFORE decoding a child *)
+      if (pos =? endPos)%N then (Ok (rev acc), s)
+      else if (endPos <? pos)%N then (Err, s)
+      else
+        match dec_box_r f pos (icharge (tick 1) s) with
+        | (Ok BEof, s1) => (Ok (rev acc), s1)          (* err == io.EOF: return children, nil *)
+        | (Ok (BBox child), s1) =>
+            children_r f (addu64 pos (tsize child)) endPos (child :: acc) (icharge (allocn 1) s1)
+        | (Err, s1) => (Err, s1) | (Panic, s1) => (Panic, s1) | (OutOfFuel, s1) => (OutOfFuel, s1)
+        end
   end.
 
 End Loops.
